@@ -1,0 +1,16 @@
+//go:build verif
+// +build verif
+
+package ast
+
+// Export for the /verif C04 harness (generated C computes what the Wuffs
+// source means): the three token IDs of a raw node, which the harness's
+// generic AST serialiser writes out for the reference interpreter. Compiled
+// only with -tags verif.
+
+import (
+	t "github.com/google/wuffs/lang/token"
+)
+
+// VerifC04IDs returns the node's id0, id1 and id2 fields.
+func (n *Raw) VerifC04IDs() [3]t.ID { return [3]t.ID{n.id0, n.id1, n.id2} }
